@@ -16,7 +16,7 @@ import (
 )
 
 func init() {
-	register("C02", "other", LoadOpts{TC: true, SSA: true, NeedGen: true}, checkC02)
+	register("C02", "other", LoadOpts{TC: true, SSA: true, NeedGen: true, Controls: []string{"cells"}}, checkC02)
 }
 
 type lform struct {
@@ -594,8 +594,11 @@ func checkC02(c *Ctx) {
 	laLen(c, "LA-len")
 	laFrame(c, "LA-frame")
 	laOffset(c, "LA-offset")
+	laCells(c, "LA-cells")
 	runWHRows(c, "WH-rows")
 	runWHEmpty(c, "WH-empty")
+	runWHChild(c, "WH-child")
+	runWHGroups(c, "WH-groups")
 	// schema inputs over the corpus
 	res, desc, exhaustive := runCorpusFor(c, false)
 	if res != nil {
@@ -828,4 +831,191 @@ func laOffset(c *Ctx, rule string) {
 	}
 	r.count(rule+"/offset-stores", n)
 	r.floor(rule+"/offset-stores", 2, "FileOffset and DataPageOffset in Footer")
+}
+
+// laCells (C02, C15): pointer-typed fields of schema elements (num_children, type, repetition_type, …) must not be
+// written *through* when the cell they point to is shared by several elements. A cell allocated once, outside the
+// loop that builds the elements, whose address is stored into many elements, is shared: a store through
+// `*elem.NumChildren` then changes every element (all groups report the same child count). Writing a fresh cell
+// (`n := *p; n++; elem.NumChildren = &n`) is the safe idiom.
+func laCells(c *Ctx, rule string) {
+	r, u := c.R, c.U
+	scan := func(fns []*ssa.Function, ctl bool) {
+		for _, f := range fns {
+			for _, b := range f.Blocks {
+				for _, ins := range b.Instrs {
+					st, ok := ins.(*ssa.Store)
+					if !ok {
+						continue
+					}
+					// write-through: the address is the value loaded from a pointer-typed struct field
+					fld := fieldOfLoad(st.Addr)
+					if fld == nil {
+						continue
+					}
+					if _, isPtr := fld.Type().Underlying().(*types.Pointer); !isPtr {
+						continue
+					}
+					if w, _ := intWidth(fld.Type().Underlying().(*types.Pointer).Elem()); w == 0 {
+						continue
+					}
+					// who assigns this field, and with which cells?
+					ctor, other := storesTo(u, fld)
+					shared := ""
+					for _, as := range append(ctor, other...) {
+						al, ok := as.Val.(*ssa.Alloc)
+						if !ok || as.Parent() != f {
+							continue
+						}
+						// shared if the cell is allocated outside a loop in which it is assigned to the field
+						inLoop := false
+						for _, s := range reachableBlocks(as.Block()) {
+							if s == as.Block() {
+								inLoop = true
+							}
+						}
+						allocInSameIter := al.Block() == as.Block() || (as.Block().Dominates(al.Block()))
+						if inLoop && !allocInSameIter && al.Parent() == as.Parent() {
+							shared = u.Pos(as.Pos())
+						}
+					}
+					key := fmt.Sprintf("%s write through %s", u.FnName(f), fld.Name())
+					if ctl {
+						c.control(rule, u.FnName(f), shared != "", "write through a field whose cells are per-object")
+						continue
+					}
+					r.count(rule+"/write-through", 1)
+					if shared != "" {
+						r.bad(rule, key, u.Pos(st.Pos()), fmt.Sprintf("the store at %s writes through %s, but the cell it points to is shared: one cell allocated outside the loop is assigned to that field of several objects at %s — every object sees the update (e.g. all groups report the same num_children)", u.Pos(st.Pos()), fld.Name(), shared))
+					} else {
+						r.ok(rule, key, u.Pos(st.Pos()), "written through, but every object gets its own cell")
+					}
+				}
+			}
+		}
+	}
+	var rt []*ssa.Function
+	for _, f := range u.Funcs {
+		if u.pkgPathOf(f) == rtPath && f.Synthetic == "" {
+			rt = append(rt, f)
+		}
+	}
+	scan(rt, false)
+	if fns := u.ctlFuncs("cells"); len(fns) > 0 {
+		scan(fns, true)
+		r.floor("controls/"+rule, 2, "1 bad + 1 good shared-cell control")
+	} else {
+		r.failf("%s controls not loaded", rule)
+	}
+}
+
+// laOverlap (C03, C01): two slices cut from one allocation and kept in different fields must not be able to grow
+// into each other: a 2-index slice `buf[a:b]` keeps the capacity up to the end of buf, so appending to it overwrites
+// whatever a sibling slice `buf[c:d]` (c >= b) holds. The cut must be a full slice expression `buf[a:b:b]`.
+func laOverlap(c *Ctx, rule string) {
+	r, u := c.R, c.U
+	scan := func(fns []*ssa.Function, ctl bool) {
+		for _, f := range fns {
+			bases := map[ssa.Value][]*ssa.Slice{}
+			for _, b := range f.Blocks {
+				for _, ins := range b.Instrs {
+					sl, ok := ins.(*ssa.Slice)
+					if !ok {
+						continue
+					}
+					// the allocation a slice is cut from (looking through a whole-buffer slice such as `new [N]T` -> t[:N])
+					root := sl.X
+					for {
+						inner, ok := root.(*ssa.Slice)
+						if !ok {
+							break
+						}
+						root = inner.X
+					}
+					switch root.(type) {
+					case *ssa.MakeSlice, *ssa.Alloc:
+						if _, whole := sl.X.(*ssa.Alloc); whole && sl.Low == nil && sl.Max == nil {
+							continue // the whole-buffer slice itself
+						}
+						bases[root] = append(bases[root], sl)
+					}
+				}
+			}
+			flagged, detail := false, ""
+			for base, sls := range bases {
+				// slices of this allocation that leave the function (returned or stored into a field)
+				var kept []*ssa.Slice
+				for _, sl := range sls {
+					for _, ref := range *sl.Referrers() {
+						switch x := ref.(type) {
+						case *ssa.Return:
+							kept = append(kept, sl)
+						case *ssa.Store:
+							if fieldOf(x.Addr) != nil {
+								kept = append(kept, sl)
+							}
+						}
+					}
+				}
+				if len(kept) < 2 {
+					continue
+				}
+				if !ctl {
+					r.count(rule+"/shared-allocations", 1)
+				}
+				_ = base
+				isZero := func(v ssa.Value) bool { return v == nil || constIs(v, 0) }
+				for _, sl := range kept {
+					if sl.Max != nil {
+						continue
+					}
+					// a 2-index slice keeps the capacity to the end of the allocation: dangerous when a sibling starts after it
+					after := false
+					for _, t := range kept {
+						if t == sl {
+							continue
+						}
+						switch {
+						case isZero(sl.Low) && !isZero(t.Low):
+							after = true
+						case sl.Low != nil && t.Low != nil:
+							a, aok := sl.Low.(*ssa.Const)
+							b2, bok := t.Low.(*ssa.Const)
+							if aok && bok && a.Value != nil && b2.Value != nil && constant.Compare(b2.Value, token.GTR, a.Value) {
+								after = true
+							}
+						}
+					}
+					if after {
+						flagged = true
+						detail = fmt.Sprintf("%s: the slice cut at %s keeps the capacity of the whole allocation; appending to it overwrites the sibling slice cut from the same allocation (use a full slice expression a[lo:hi:hi])", u.FnName(f), u.Pos(sl.Pos()))
+					}
+				}
+				if !ctl {
+					key := fmt.Sprintf("%s slices of one allocation", u.FnName(f))
+					if flagged {
+						r.bad(rule, key, u.Pos(f.Pos()), detail)
+					} else {
+						r.ok(rule, key, u.Pos(f.Pos()), "sibling slices of one allocation are capacity-limited")
+					}
+				}
+			}
+			if ctl {
+				c.control(rule, u.FnName(f), flagged, detail)
+			}
+		}
+	}
+	var fns []*ssa.Function
+	for _, f := range u.Funcs {
+		if !u.isCtl(f) && f.Synthetic == "" {
+			fns = append(fns, f)
+		}
+	}
+	scan(fns, false)
+	if ctl := u.ctlFuncs("overlap"); len(ctl) > 0 {
+		scan(ctl, true)
+		r.floor("controls/"+rule, 2, "1 bad + 1 good overlap control")
+	} else {
+		r.failf("%s controls not loaded", rule)
+	}
 }
